@@ -134,7 +134,9 @@ fn main() {
             println!("events: {:?}", ev);
         }
         "inproc" => {
-            // nlv inproc <prop> <tier> <seed> <from> <to>: run cases in this very process (no workers): used under Miri
+            // nlv inproc <prop> <tier> <seed> <from> <to> [<stride> <offset>]: run cases in this very process (no
+            // workers): used under Miri. With a stride, only the cases from + offset + k * stride are run, so that
+            // expensive families are spread over the shards
             if args.len() < 7 {
                 usage();
             }
@@ -145,11 +147,15 @@ fn main() {
             let from: u64 = args[5].parse().unwrap_or(0);
             let to: u64 = args[6].parse().unwrap_or(0);
             let ctx = Ctx { seed, tier, flavour: sup::Flavour::from_env() };
+            let stride: u64 = args.get(7).and_then(|s| s.parse().ok()).unwrap_or(1).max(1);
+            let offset: u64 = args.get(8).and_then(|s| s.parse().ok()).unwrap_or(0);
             let total = check.total_cases(&ctx);
             let mut st = sup::Stats::default();
-            for idx in from..to.min(total) {
+            let mut idx = from + offset;
+            while idx < to.min(total) {
                 st.cur_idx = idx;
                 check.run_case(&ctx, idx, &mut st);
+                idx += stride;
             }
             println!("inproc {} cases {}..{} evaluations={} violations={}", args[2], from, to.min(total), st.evaluations, st.violations.len());
             for v in &st.violations {
